@@ -4,6 +4,9 @@ mod c09;
 mod c11;
 mod c12;
 mod c13;
+mod c15;
+mod c17;
+mod ctl;
 mod driver;
 mod geom;
 mod report;
@@ -37,6 +40,7 @@ fn main() {
         let v: serde_json::Value = std::fs::read_to_string(path).ok().and_then(|t| serde_json::from_str(&t).ok()).unwrap_or(serde_json::Value::Null);
         match prop.as_str() {
             "C09" => c09::replay(&mut rep, &v),
+            "C15" => c15::replay(&mut rep, &v),
             _ => rep.notes.push(format!("HARNESS-ERROR: no replay handler for {prop}")),
         }
         let text = serde_json::to_string_pretty(&rep.to_json()).unwrap();
@@ -48,6 +52,8 @@ fn main() {
         "C11" => c11::run(&mut rep, &tier, seed),
         "C12" => c12::run(&mut rep, &tier, seed),
         "C13" => c13::run(&mut rep, &tier, seed),
+        "C15" => c15::run(&mut rep, &tier, seed),
+        "C17" => c17::run(&mut rep, &tier, seed),
         other => Err(format!("no harness for property {other}")),
     };
     if let Err(e) = r {
